@@ -1176,8 +1176,10 @@ def flush(ctx: C.Ctx, batch: list) -> None:
         for t in tags_for(case, 0, "", None, None)["illtyped_ops"]:
             ctx.branch("ill:" + t)
         # (0) the two spec implementations agree (Lean spec is the reference; the twin is the fallback oracle)
+        twin_differs = False
         if lsp is not None:
             if lsp[0] == "err" or (lsp[0] == "ok") != (psp[0] == "ok") or (lsp[0] == "ok" and seq_diff(lsp[1], psp[1])):
+                twin_differs = True
                 ctx.disagree("spec-twin", {"case": case}, "python twin: %s %s" % (psp[0], psp[1] if psp[0] != "ok" else len(psp[1])),
                              "lean spec: %s %s" % (lsp[0], lsp[1] if lsp[0] != "ok" else len(lsp[1])))
         # (a) tie: model == implementation
@@ -1209,7 +1211,9 @@ def flush(ctx: C.Ctx, batch: list) -> None:
             elif mb[0] == "err" and "fuel" in mb[1] and im[0] == "ok":
                 ctx.disagree("c05.model-bytes", {"case": case}, "glyphs=%d" % nglyph, mb[1])
         # (b) property: implementation == spec on the domain
-        sp = lsp if (lsp is not None and lsp[0] != "err") else psp
+        # The Lean spec uses the matrix helpers regenerated from utils.py; when it and the twin (which shares no
+        # code with the repo) differ, the twin is the oracle so that the edit is still reported with a replay.
+        sp = lsp if (lsp is not None and lsp[0] != "err" and not twin_differs) else psp
         if sp[0] != "ok":
             continue
         if im[0] == "exc":
